@@ -9,6 +9,8 @@ import (
 	"context"
 	"errors"
 	"fmt"
+	"io"
+	"log"
 	"net"
 	"net/http"
 	"os"
@@ -108,6 +110,24 @@ func TestVF_Server(t *testing.T) {
 			vfBuildScenario(rec, sc)
 		case "retry":
 			vfRetryScenario(t, rec, sc)
+		case "wtask":
+			// the link watcher task around Watcher.Watch: unavailable on this OS (not-exist) is not an error
+			var werr error
+			switch vfStr(sc, "res", "nil") {
+			case "notexist":
+				werr = fmt.Errorf("vf: %w", os.ErrNotExist)
+			case "other":
+				werr = errors.New("vf: netlink failed")
+			}
+			wt := &watcherTask{watch: func(context.Context) error { return werr }, ll: log.New(io.Discard, "", 0)}
+			err := wt.Run(context.Background())
+			select {
+			case <-wt.Ready():
+			default:
+				err = errors.New("vf: not ready")
+			}
+			rec.raw(map[string]any{"ev": "reset", "id": vfStr(sc, "id", ""), "n": 0})
+			rec.raw(map[string]any{"ev": "wtask", "res": vfStr(sc, "res", "nil"), "err": err != nil})
 		}
 	}
 }
@@ -331,9 +351,17 @@ func vfBuildScenario(rec *vfRec, sc map[string]any) {
 	for _, task := range srv.BuildTasks(cfg, http.NotFoundHandler()) {
 		// classified by what the task is, not by how it describes itself
 		switch tk := task.(type) {
-		case *Advertiser:
+		case *Advertiser: // (an interface task without a link-state subscription is not the task the statement means)
+			if tk.watchC == nil {
+				kinds = append(kinds, "adv-without-link-watch:"+tk.cfg.Name)
+				break
+			}
 			kinds = append(kinds, "adv:"+tk.cfg.Name)
 		case *Monitor:
+			if tk.watchC == nil {
+				kinds = append(kinds, "mon-without-link-watch:"+tk.iface)
+				break
+			}
 			kinds = append(kinds, "mon:"+tk.iface)
 		case *httpTask:
 			kinds = append(kinds, "http")
